@@ -20,7 +20,7 @@ WORKER = os.path.join(VERIF, "replay", "determinism_worker.py")
 
 EXPLANATION = (
     "Two parts. (1) Deductive: the constructors that fix the variable layout (python.Model.__init__, python.SensorModel.__init__, "
-    "python.ExtendedKalmanFilter._construct_process_noise/_construct_sensors, cpp.Model.__init__, cpp.ExtendedKalmanFilter.__init__) are symbolically "
+    "python.ExtendedKalmanFilter._construct_process/_construct_sensors, cpp.Model.__init__, cpp.ExtendedKalmanFilter.__init__) are symbolically "
     "executed with the declared containers as abstract finite sets whose iteration order is an uninterpreted permutation (the ORDER TOKEN: hash "
     "order of a set / declaration order of a list / insertion order of a dict); the postconditions pin every layout down as the name-sorted "
     "enumeration of the SET, and a syntactic non-interference scan shows that no order token occurs in any stored field or path condition - so the "
@@ -105,6 +105,8 @@ def sweep(run, definitions, n_hash, n_orders):
 
 def check(run):
     from checks import determinism_contracts
+
+    run.level = "other"  # layouts: proved; emitted text: bounded sweep (see EXPLANATION)
 
     determinism_contracts.check(run)
     thorough = run.tier == "thorough"
